@@ -179,6 +179,10 @@ def run_case(ctx, kind, stack, methods, prefixes, status_map, repeats):
             ctx.violation(f'document-not-encodable:{type(e).__name__}:{"openrpc" if kind == "openrpc" else "openapi"}', fam, cls, exception=e, **wit)
             return
     doc = docs[0]
+    bad_ref = _malformed_ref(doc)
+    if bad_ref:
+        ctx.violation('malformed-$ref-member', fam, cls, where=bad_ref, **wit)
+        return
     # ---- purity: repeated generation identical, nothing the user handed in was touched
     for r, d in enumerate(docs[1:], 2):
         ctx.hit('repeat-generations')
@@ -267,6 +271,24 @@ def run_case(ctx, kind, stack, methods, prefixes, status_map, repeats):
                                                           status_map=status_map, repeats=repeats)), fam, cls, wit))
     ctx.ok(fam, cls, sample={'kind': kind, 'extractors': stack, 'methods': [m['name'] for m in methods], 'prefixes': prefixes,
                              'document_keys': list(doc.get('paths', {})) or [m.get('name') for m in doc.get('methods', [])]})
+
+
+def _malformed_ref(node, path=''):
+    """a `$ref` member is a reference string wherever it occurs (no Python parameter, field or key of the generated
+    methods is spelled `$ref`)"""
+    if isinstance(node, dict):
+        if '$ref' in node and not isinstance(node['$ref'], str):
+            return path + '/$ref'
+        for k, v in node.items():
+            r = _malformed_ref(v, f'{path}/{k}')
+            if r:
+                return r
+    elif isinstance(node, list):
+        for i, v in enumerate(node):
+            r = _malformed_ref(v, f'{path}/{i}')
+            if r:
+                return r
+    return None
 
 
 def _grown(before, after):
@@ -368,7 +390,8 @@ def random_method(rng, idx, allow_view=True):
     for i in range(n):
         typ = rng.choice(specworld.TYPES)
         kind = 'KO' if (i == n - 1 and rng.random() < 0.3) else 'PK'
-        params.append([['a', 'b', 'c'][i], kind, typ, False])
+        # (`ref` is an ordinary parameter name; nothing in a document may confuse it with a `$ref`)
+        params.append([['a', 'b', 'c'][i] if (i < n - 1 or rng.random() < 0.7) else 'ref', kind, typ, False])
     # defaults suffix-closed among PK
     if params and rng.random() < 0.4:
         params[-1][3] = True
@@ -447,6 +470,8 @@ def gen(ctx):
         [base('m0', view=True), base('m1', view=True, ctx='ctx')],
         [base('m0', doc={'params': 'bare', 'returns': 'rtype'}), base('m1', doc={'params': True, 'returns': 'rtype'})],
         [base('m0', doc={'params': 'bare'})],
+        [dict(base('m0', annotate={'examples': 2, 'params_schema': True}), params=[['ref', 'PK', 'int', False], ['a', 'PK', 'Thing', True]]),
+         dict(base('m1', annotate={'params_schema': True, 'result_schema': True}), params=[['a', 'PK', 'int', False], ['ref', 'KO', 'str', True]])],
         [base('m0', annotate={'tags': ['t1', 't2'], 'examples': 2, 'servers': True, 'security': True}), base('m1', annotate={'tags': ['t1', 't2']})],
     ]
     for methods in crafted:
